@@ -730,15 +730,20 @@ func (c *Client) receipts(ctx context.Context, url string, bm blockmap, start, l
 		if !ok {
 			return fmt.Errorf("block not found")
 		}
-		if !sameBlock(b, resps[i].Result[0].BlockHash) {
-			return fmt.Errorf("eth_getBlockReceipts block hash mismatch. num=%d", blockNum)
-		}
-		b.Header.Hash.Write(resps[i].Result[0].BlockHash)
 		for j := range resps[i].Result {
 			if uint64(resps[i].Result[j].BlockNum) != blockNum {
 				const tag = "eth_getBlockReceipts receipts of blocks %d and %d in one result"
 				return fmt.Errorf(tag, blockNum, resps[i].Result[j].BlockNum)
 			}
+		}
+		// the block may be shared with other tasks through the cache
+		b.Lock()
+		if !sameBlock(b, resps[i].Result[0].BlockHash) {
+			b.Unlock()
+			return fmt.Errorf("eth_getBlockReceipts block hash mismatch. num=%d", blockNum)
+		}
+		b.Header.Hash.Write(resps[i].Result[0].BlockHash)
+		for j := range resps[i].Result {
 			tx := b.Tx(uint64(resps[i].Result[j].TxIdx))
 			tx.PrecompHash.Write(resps[i].Result[j].TxHash)
 			tx.Type.Write(byte(resps[i].Result[j].TxType))
@@ -751,6 +756,7 @@ func (c *Client) receipts(ctx context.Context, url string, bm blockmap, start, l
 			tx.ContractAddress.Write(resps[i].Result[j].ContractAddress)
 			copy(tx.Logs, resps[i].Result[j].Logs)
 		}
+		b.Unlock()
 	}
 	return nil
 }
@@ -909,17 +915,22 @@ func (c *Client) traces(ctx context.Context, url string, bm blockmap, start, lim
 		if !ok {
 			return fmt.Errorf("missing block in block map")
 		}
+		for i := range res.Result {
+			if res.Result[i].BlockNum != block.Num() {
+				const tag = "trace_block traces of blocks %d and %d in one result"
+				return fmt.Errorf(tag, block.Num(), res.Result[i].BlockNum)
+			}
+		}
+		// the block may be shared with other tasks through the cache
+		block.Lock()
 		if !sameBlock(block, res.Result[0].BlockHash) {
+			block.Unlock()
 			return fmt.Errorf("trace_block block hash mismatch. num=%d", block.Num())
 		}
 		block.Header.Hash.Write(res.Result[0].BlockHash)
 
 		var tracesByTx = map[key][]traceBlockResult{}
 		for i := range res.Result {
-			if res.Result[i].BlockNum != block.Num() {
-				const tag = "trace_block traces of blocks %d and %d in one result"
-				return fmt.Errorf(tag, block.Num(), res.Result[i].BlockNum)
-			}
 			k := key{block.Num(), uint64(res.Result[i].TxIdx)}
 			if traces, ok := tracesByTx[k]; ok {
 				tracesByTx[k] = append(traces, res.Result[i])
@@ -937,6 +948,7 @@ func (c *Client) traces(ctx context.Context, url string, bm blockmap, start, lim
 				tx.TraceActions[i] = ta
 			}
 		}
+		block.Unlock()
 	}
 	slog.DebugContext(ctx, "http-get-traces", "elapsed", time.Since(t0))
 	return nil
